@@ -212,6 +212,12 @@ func runTaskOnce(ts taskSession, r *rt.Run, restoreFrom *kapacitor.TaskSnapshot)
 				return rec, nil, nil
 			}
 		}
+		// the last snapshot while the task is still running: closing the collector ends the batch source, the UDF node
+		// then closes its UDF on its own and a snapshot call meeting that stop returns ErrServerStopped
+		if ts.snapAt[-1] {
+			snapshot()
+			ts.snapAt = map[int]bool{}
+		}
 		closeCols()
 	} else {
 		for k, p := range ts.points {
